@@ -161,6 +161,14 @@ def rule_queue(ck):
             if "Some(" in a and "pop_front" in a:
                 ok = True
         ck.ob("pair.queue", f"resume/pop#{k}/request-passed-to-cont_stopped_ex", ok, "", r.loc(p.bb))
+        # every thread that still waits for its own injection stays parked: the exclude set is built from the whole
+        # remaining queue (a thread continued with signal 0 out of its signal-delivery-stop loses the signal)
+        for c in cse:
+            e = expr_of(r, c.args[2], depth=12)
+            calls_ = [x.split("::")[-1] for x in expr_calls(e)]
+            whole = ("iter" in calls_ or "into_iter" in calls_ or "keys" in calls_) and "collect" in calls_ and ".inject_signal_queue" in expr_str(e, 12)
+            partial = sorted({x for x in calls_ if x in ("front", "back", "first", "last", "take", "get", "nth", "next", "peek")})
+            ck.ob("pair.queue", f"resume/pop#{k}/every-still-queued-thread-stays-parked", whole and not partial, f"exclude set = {expr_str(e, 8)[:110]}" + (f" (restricted by {partial})" if partial else ""), r.loc(c.bb), what="threads queued behind the next injection are continued without their signal: the third and later signals of a burst are lost")
     # quiet loop-back
     q = [x for x in r.calls() if x.name.endswith("contains") and "QUIET" in expr_str(expr_of(r, x.args[0]), 6)]
     ck.floor("pair.queue", "quiet tests in resume", len(q), 1)
@@ -180,6 +188,15 @@ def rule_queue(ck):
                 ok = e[0] == "multi" and any(_is_none(x) for x in e[1]) and len(e[1]) == 2
                 ck.saw(g)
     ck.ob("pair.queue", "cont_stopped_ex/signal-to-addressed-thread-only", ok, "", f.loc())
+    ex = False
+    for g in cl:
+        conts = [c for c in g.calls() if c.name == TE + "::r#continue"]
+        tests = [c for c in g.calls() if re.search(r"HashSet::<T, S(, A)?>::contains$", c.name)]
+        if conts and tests and all(g.dominates(tests[0].bb, c.bb) for c in conts):
+            cuts = switch_cuts_on_call_result(g, lambda cc: cc.bb == tests[0].bb, [0])  # follow `true` (excluded)
+            reach = cut_edges_reach(g, g.succ(tests[0].bb), set(), cuts)
+            ex = not any(c.bb in reach for c in conts)
+    ck.ob("pair.queue", "cont_stopped_ex/excluded-threads-not-continued", ex, "", f.loc())
 
 
 def rule_report(ck):
